@@ -1261,6 +1261,9 @@ pub fn gen_c19(seed: u64, _thorough: bool) -> Case {
         for _ in 0..rng.range(1, 3) {
             case.raw(*rng.pick(&["go depth 2", "go movetime 20", "stop", "isready", "show", "wait", "go infinite", "uci"]));
         }
+        // let the engine answer them before the new game is sent (a GUI does not wait for a move after an `error:` line)
+        case.raw("isready");
+        case.push(GK::AwaitReady);
     }
     case.push(GK::NewGame { root: root.clone(), pre: pre.clone() });
     case.push(GK::PosCur);
